@@ -1,1 +1,14 @@
-
+/* contract stubs of the aggregator layer (CacheBin::get / putList / updateUsedSize with ExtMemoryPool*): recorders.
+ * Names/prototypes as in the generated w.h (two instantiations: large = BitMaskMax<1023>, huge = BitMaskMax<136>). */
+#define LBIN struct S_class_rml__internal__LargeObjectCacheImpl_rml__internal__LargeObjectCacheProps_rml__internal__LargeBinStructureProps_8192__8388608___2__2__16____CacheBin
+#define HBIN struct S_class_rml__internal__LargeObjectCacheImpl_rml__internal__LargeObjectCacheProps_rml__internal__HugeBinStructureProps_8388608__1099511627776___1__1__4____CacheBin
+#define LMASK struct S_class_rml__internal__BitMaskMax_10
+#define HMASK struct S_class_rml__internal__BitMaskMax
+#define EXT struct S_struct_rml__internal__ExtMemoryPool
+void _ZN3rml8internal20LargeObjectCacheImplINS0_21LargeObjectCachePropsINS0_22LargeBinStructurePropsILm8192ELm8388608EEELi2ELi2ELi16EEEE8CacheBin14updateUsedSizeEPNS0_13ExtMemoryPoolEmPNS0_10BitMaskMaxILj1023EEEi(LBIN* b, EXT* e, u64 size, LMASK* m, u32 idx) { touch(0, (u8*)b, (u8*)m, idx, 0, size, 0); }
+void _ZN3rml8internal20LargeObjectCacheImplINS0_21LargeObjectCachePropsINS0_21HugeBinStructurePropsILm8388608ELm1099511627776EEELi1ELi1ELi4EEEE8CacheBin14updateUsedSizeEPNS0_13ExtMemoryPoolEmPNS0_10BitMaskMaxILj136EEEi(HBIN* b, EXT* e, u64 size, HMASK* m, u32 idx) { touch(1, (u8*)b, (u8*)m, idx, 0, size, 0); }
+void _ZN3rml8internal20LargeObjectCacheImplINS0_21LargeObjectCachePropsINS0_22LargeBinStructurePropsILm8192ELm8388608EEELi2ELi2ELi16EEEE8CacheBin7putListEPNS0_13ExtMemoryPoolEPNS0_16LargeMemoryBlockEPNS0_10BitMaskMaxILj1023EEEi(LBIN* b, EXT* e, lmb_t* head, LMASK* m, u32 idx) { touch(0, (u8*)b, (u8*)m, idx, 2, 0, (u8*)head); }
+void _ZN3rml8internal20LargeObjectCacheImplINS0_21LargeObjectCachePropsINS0_21HugeBinStructurePropsILm8388608ELm1099511627776EEELi1ELi1ELi4EEEE8CacheBin7putListEPNS0_13ExtMemoryPoolEPNS0_16LargeMemoryBlockEPNS0_10BitMaskMaxILj136EEEi(HBIN* b, EXT* e, lmb_t* head, HMASK* m, u32 idx) { touch(1, (u8*)b, (u8*)m, idx, 2, 0, (u8*)head); }
+/* a GET charges `size` to the bin's usedSize whether it hits or misses (ExecuteOperation, CBOP_GET); here: always a miss */
+lmb_t* _ZN3rml8internal20LargeObjectCacheImplINS0_21LargeObjectCachePropsINS0_22LargeBinStructurePropsILm8192ELm8388608EEELi2ELi2ELi16EEEE8CacheBin3getEPNS0_13ExtMemoryPoolEmPNS0_10BitMaskMaxILj1023EEEi(LBIN* b, EXT* e, u64 size, LMASK* m, u32 idx) { touch(0, (u8*)b, (u8*)m, idx, 1, size, 0); return 0; }
+lmb_t* _ZN3rml8internal20LargeObjectCacheImplINS0_21LargeObjectCachePropsINS0_21HugeBinStructurePropsILm8388608ELm1099511627776EEELi1ELi1ELi4EEEE8CacheBin3getEPNS0_13ExtMemoryPoolEmPNS0_10BitMaskMaxILj136EEEi(HBIN* b, EXT* e, u64 size, HMASK* m, u32 idx) { touch(1, (u8*)b, (u8*)m, idx, 1, size, 0); return 0; }
